@@ -134,6 +134,22 @@ class PathSum:
                     return node.orelse
                 return node
 
+            def visit_BoolOp(self, node):
+                # `a or b` / `a and b` whose first operand the case decides
+                self.generic_visit(node)
+                vals = list(node.values)
+                while len(vals) > 1:
+                    r = GuardEval(me.prog, me.cls, me.env, me.enums).ev(copy.deepcopy(vals[0]))
+                    if r is None:
+                        break
+                    if r == isinstance(node.op, ast.Or):
+                        return vals[0]                # decided by the first operand: that operand is the value
+                    vals = vals[1:]                   # the first operand lets the next one decide
+                if len(vals) == 1:
+                    return vals[0]
+                node.values = vals
+                return node
+
             def visit_Lambda(self, node):
                 return node
         e = F().visit(e)
